@@ -123,6 +123,10 @@ def run_case(case, rec):
                 check_graph(rec, steps, wn.Wordnet(f'g{i}:1'), f'g{i}', G(n, edges), pos_of, taxonomy, edges)
                 rec.done([case['kind'], n, edges, case['posmode']], nontrivial=bool(edges),
                          sample={'nodes': n, 'edges': edges, 'pos': [pos_of(j) for j in range(n)]})
+        rec.add_extra('exhaustive_scope', 'exhaustive: true refers to the enumerated finite spaces only - every labelled digraph on 1, 2 and 3 nodes '
+                      '(2 + 16 + 512, self-loops included) and, per tier, every isomorphism class of 4-node digraphs without (quick: 218) or '
+                      'with (thorough: 3044) self-loops; each with all nodes, all ordered pairs and both simulate_root values; the random '
+                      'larger graphs are a sample')
     finally:
         steps.restore()
         env.rmtree(work)
